@@ -23,6 +23,7 @@ BUILD = os.path.join(VERIF, 'build')
 EVID = os.path.join(VERIF, 'evidence')
 COQ_TIMEOUT = int(os.environ.get('VERIF_COQ_TIMEOUT', '900'))
 GUARD = 'ODL_VERIF'
+JOBS = int(os.environ.get('VERIF_JOBS', '16'))
 
 
 class TranslateError(Exception):
@@ -149,9 +150,10 @@ def _shard_text(cs, chunk):
 _FAIL_RE = re.compile(r'=\s*(\[.*?\])\s*(%nat)?\s*:\s*list nat', re.S)
 
 
-def run_shards(pid, casesets, shard_size=400, jobs=16):
+def run_shards(pid, casesets, shard_size=400, jobs=None):
     """Write and evaluate all shards.  Returns dict with counts and failures:
     failures = list of (caseset name, index in caseset, description, reason)."""
+    jobs = jobs or JOBS
     d = os.path.join(BUILD, 'cases', pid)
     if os.path.isdir(d):
         for f in os.listdir(d):
@@ -289,9 +291,10 @@ def theorems_in(path):
     return names
 
 
-def build_props(pid, jobs=16):
+def build_props(pid, jobs=None):
     """(Re)build coq/<pid>/Props.vo with a full .vo build of its dependencies.
     Returns dict(ok, theorems, log, assumptions, failed_at)."""
+    jobs = jobs or JOBS
     rel = '%s/Props.v' % pid
     path = os.path.join(COQ, rel)
     thms = theorems_in(path)
@@ -347,15 +350,17 @@ def build_props(pid, jobs=16):
 
 # ----------------------------------------------------------------- findings
 def load_findings(pid):
-    p = os.path.join(VERIF, 'known_findings.json')
-    try:
-        data = json.load(open(p))
-    except IOError:
-        return {}
+    """Open entries for pid from known_findings.json (the committed list) and, while a
+    property is being built in its own worktree, from findings/<pid>.json."""
     out = {}
-    for e in data.get('findings', []):
-        if e.get('property') == pid and e.get('status') == 'open':
-            out[e['key']] = e
+    for p in (os.path.join(VERIF, 'known_findings.json'), os.path.join(VERIF, 'findings', pid + '.json')):
+        try:
+            data = json.load(open(p))
+        except IOError:
+            continue
+        for e in data.get('findings', []):
+            if e.get('property') == pid and e.get('status') == 'open':
+                out[e['key']] = e
     return out
 
 
